@@ -336,7 +336,7 @@ def fresh_class(n: str) -> str:
     return 'plain'
 
 
-def resubmitted(sources: dict, renamed_sources: dict, immutable=None):
+def resubmitted(sources: dict, renamed_sources: dict, immutable=None, decoy_names=None):
     """One live session (what the interactive mode does): the program is transpiled, then every module is replaced by its
     renamed text under the same module path and transpiled again. Returns the second outputs or ('err', ...)."""
     from mc.tranp.session import Session, VIEW_ENV
@@ -345,6 +345,19 @@ def resubmitted(sources: dict, renamed_sources: dict, immutable=None):
         if immutable:
             view_env = {'immutable_param_types': list(VIEW_ENV['immutable_param_types']) + list(immutable)}
         s = Session(dict(sources), view_env=view_env)
+        if decoy_names:
+            # an unrelated earlier submission under the same module path in which the fresh names mean something else
+            # (generic functions): whatever the session remembers about those names must not reach the renamed program
+            first = next(iter(sources))
+            import keyword
+            names = [n for n in decoy_names if n.isidentifier() and not keyword.iskeyword(n)]
+            s.sources[first] = "from typing import TypeVar\n\nT_Decoy = TypeVar('T_Decoy')\n\n" + ''.join(f'def {n}(v: T_Decoy) -> T_Decoy:\n\treturn v\n\n' for n in names)
+            try:
+                s.transpile(first)
+            except Exception:  # noqa  -- the decoy only builds history
+                pass
+            s.sources[first] = sources[first]
+            s.unload(first)
         for m in sources:
             s.transpile(m)
         for m in sources:
@@ -376,7 +389,7 @@ def worker(task):
             break
     if len(task) > 5 and task[5] and not viol and '@' not in pname:
         # the renamed program submitted to the session that has just transpiled the original one
-        again = resubmitted(sources, renamed_sources)
+        again = resubmitted(sources, renamed_sources, decoy_names=list(mapping.values()))
         if again[0] == 'err':
             viol.append((['renamed-program-rejected', again[1], 'history=resubmitted', f'role={role}'], f'{pname}: renaming {mapping}, submitted after the original program in one session: {again[1]}: {again[2]}', rep))
         else:
